@@ -153,7 +153,7 @@ class SparseLinearModel(LinearModel):
 
     def fit(self, X, y=None):
         validate_data(self, X)
-        self.groups_ = check_groups(self.groups, X.shape[1])  # Intercept to check that group forms a partition
+        self.groups_ = check_groups(self.groups, self.n_features_in_)  # Intercept to check that group forms a partition
         return super().fit(X, y)
 
     def path(self, X, y=None, alpha_multiplier=1.05, min_features=2, keep_threshold=0.9, restore_best_weights=True,
